@@ -217,7 +217,7 @@ void run_std(bool with_throw)
 // readers must complete full read acquisitions while it stays parked.
 void freeze_writer(void*)
 {
-    int k = gsim::knob("freeze_k", 0, 32);
+    int k = gsim::knob("freeze_k", 0, 20);
     {
         gsim::Oracle o;
         if (S->freeze_allowed) gsim::freeze_arm(gsim::self(), k);
@@ -259,6 +259,16 @@ void run_freeze()
     int nr = gsim::prog_nthreads();
     int wt = gsim::spawn(freeze_writer, nullptr);
     S->writer_tid = wt;
+    // the readers start once the writer is parked (or has finished early)
+    for (;;) {
+        bool done;
+        {
+            gsim::Oracle o;
+            done = S->writer_done;
+        }
+        if (done || gsim::is_frozen(wt)) break;
+        gsim::yield();
+    }
     int rt[gsim::MAX_THREADS];
     for (int t = 0; t < nr; t++) rt[t] = gsim::spawn(freeze_reader, (void*)(long)t);
     // thread 0 waits until every reader has finished its reads; the writer is
